@@ -161,12 +161,20 @@ def handler_history(rng):
     main = []
     rounds = rng.choice([0, 1, 2, 3])
     handlers = []
+    deep = False
     for i in range(rounds):
         main.append({"k": "onerror", "mode": "goto", "label": "H%d" % i})
         main.append(pr("round %d" % i))
         how = rng.choice(["next", "label", "label"])
         y = rng.random()
-        if y < 0.7:
+        if y < 0.05:
+            # a recursion without end: Out of stack space is raised 10000 calls deep and trapped there
+            if not any(q["name"] == "Inf" for q in procs):
+                procs.append({"k": "sub", "name": "Inf", "params": [("K%", "%")], "static": False, "rtype": None,
+                              "body": [{"k": "callsub", "name": "Inf", "args": [("bin", "+", ("var", "K%"), ("lit", "%", 1))]}]})
+            main.append({"k": "callsub", "name": "Inf", "args": [("lit", "%", 1)]})
+            deep = True
+        elif y < 0.7:
             main.append({"k": "callsub", "name": "P1", "args": [("lit", "%", 0)]})
         else:
             main.append(div("ZQ%"))
@@ -190,7 +198,7 @@ def handler_history(rng):
         main.append({"k": "end"})
         main += handlers
         prog = {"main": main, "procs": procs, "shared": set()}
-        return prog, [rfault] + [rcall] * n + [c0], {"rounds": rounds, "depth": n + 1, "final": final, "static": sum(1 for q in procs if q["static"])}
+        return prog, [rfault] + [rcall] * n + [c0], {"rounds": rounds, "depth": n + 1, "final": final, "static": sum(1 for q in procs if q["static"]), "deep": deep}
     if final == "main":
         f = div("ZQ%")
         main.append(f)
@@ -202,7 +210,7 @@ def handler_history(rng):
     main.append({"k": "end"})
     main += handlers
     prog = {"main": main, "procs": procs, "shared": set()}
-    return prog, expected, {"rounds": rounds, "depth": depth, "final": final, "static": sum(1 for q in procs if q["static"])}
+    return prog, expected, {"rounds": rounds, "depth": depth, "final": final, "static": sum(1 for q in procs if q["static"]), "deep": deep}
 
 
 def in_span(pos, span, slack_hi=0):
@@ -214,13 +222,15 @@ def run_history(w, rng, r):
     renumber(prog)
     eol = rng.choice(["\n", "\r\n", "\r", ["\n", "\r\n", "\r"]])
     src, spans = emit_with_procs(prog, rng=rng, noise=rng.choice([0.0, 0.3, 0.6]), eol=eol)
-    rep = w.run(src, budget=200000)
+    rep = w.run(src, budget=3000000 if info.get("deep") else 200000)
     oc = outcome(rep)
     if oc[0] in ("watchdog", "harness_error", "died", "budget"):
         r.inconc(oc[0])
         return
     r.evaluations += 1
     r.count("runtime_after_handler_history", group="fault_kinds")
+    if info.get("deep"):
+        r.count("trapped_out_of_stack_space", group="handler_history")
     r.count("handled_rounds_%d" % info["rounds"], group="handler_history")
     r.count("call_depth_%d" % (len(expected) - 1), group="call_depth_at_fault")
     if info["rounds"] >= 1:
